@@ -1,4 +1,5 @@
 import functools
+import re
 from collections.abc import Sequence
 from typing import cast
 
@@ -216,6 +217,19 @@ def choose_vars_for_tuple_sum(
         return conditional
 
 
+_DIGITS = re.compile(r"(\d+)")
+
+
+def _name_key(name: str) -> tuple[tuple[int, int | str], ...]:
+    """Natural sort key: digit runs compare as numbers. Generated names such as `%tmp9`
+    and `%tmp10` then keep their creation order instead of flipping whenever the
+    session-global counter gains a digit (which made the block signatures of a function
+    depend on how much had been compiled earlier in the session)."""
+    return tuple(
+        (0, int(s)) if s.isdigit() else (1, s) for s in _DIGITS.split(name) if s
+    )
+
+
 def compare_var(p1: Place, p2: Place) -> int:
     """Defines a `<` order on variables.
 
@@ -223,7 +237,9 @@ def compare_var(p1: Place, p2: Place) -> int:
     We need to output linear variables at the end, so we do a lexicographic ordering of
     linearity and name.
     """
-    return -1 if (not p1.ty.droppable, str(p1)) < (not p2.ty.droppable, str(p2)) else 1
+    k1 = (not p1.ty.droppable, _name_key(str(p1)))
+    k2 = (not p2.ty.droppable, _name_key(str(p2)))
+    return -1 if k1 < k2 else 1
 
 
 def sort_vars(row: Row[Place]) -> list[Place]:
